@@ -12,15 +12,17 @@ STD = os.path.join(vlib.REPO, "crates/emmylua_code_analysis/resources/std")
 def gen_cases(ctx, n_single, n_sim, max_files):
     """TLC-generated programs x configurations, plus real files x TLC-enumerated lattice points."""
     rnd = random.Random(ctx.seed)
-    res = vlib.tlc("FmtGen", "FmtGen_single", workers=2, timeout=600)
-    ctx.add_tlc(res)
-    single = [c for t, c in res.json if t == "CASE"]
-    if len(single) != res.distinct or not single:
-        raise vlib.ToolError("FmtGen single: %d cases for %d states" % (len(single), res.distinct))
-    single.sort(key=lambda c: (c["text"], json.dumps(c["cfg"], sort_keys=True)))
-    ctx.note("generator_single_statement_space", len(single))
-    if n_single < len(single):
-        single = rnd.sample(single, n_single)
+    single = []
+    if n_single > 0:
+        res = vlib.tlc("FmtGen", "FmtGen_single", workers=2, timeout=600)
+        ctx.add_tlc(res)
+        single = [c for t, c in res.json if t == "CASE"]
+        if len(single) != res.distinct or not single:
+            raise vlib.ToolError("FmtGen single: %d cases for %d states" % (len(single), res.distinct))
+        single.sort(key=lambda c: (c["text"], json.dumps(c["cfg"], sort_keys=True)))
+        ctx.note("generator_single_statement_space", len(single))
+        if n_single < len(single):
+            single = rnd.sample(single, n_single)
     res = vlib.tlc("FmtGen", "FmtGen_sim", workers=1, timeout=900, simulate="num=%d" % n_sim, depth=8, seed=ctx.seed)
     ctx.add_tlc(res)
     sim = [c for t, c in res.json if t == "CASE"]
@@ -103,7 +105,7 @@ def idem_run(rid, same):
 def judge(ctx, runs, tag):
     """FmtTokens via TLC: returns {id: ("ACC"|"REJ", info)}; ACC on any path wins."""
     verdict = {}
-    chunk = 4000
+    chunk = 20000
     total_tokens = 0
     for lo in range(0, len(runs), chunk):
         part = runs[lo:lo + chunk]
